@@ -248,6 +248,33 @@ func C12(run *mon.Run) {
 		// the aggregated key as an input of further aggregations (its own public key computed before or
 		// not, together with fresh keys, with itself, with an earlier aggregate): every level agrees with
 		// the reference
+		// (deterministically, whatever the mask: every key of both levels with its public key already computed)
+		{
+			for _, sk := range sks {
+				_ = sk.PublicKey()
+			}
+			if l1, e1 := crypto.AggregateBLSPrivateKeys(sks); e1 == nil && sum.Sign() != 0 {
+				_ = l1.PublicKey()
+				k2 := randScalar(r)
+				o2 := skFromInt(k2)
+				_ = o2.PublicKey()
+				for li, list := range [][]crypto.PrivateKey{{l1, o2}, {o2, l1}, {l1, o2, l1}} {
+					s2 := ref.Fr.Add(sum, k2)
+					if li == 2 {
+						s2 = ref.Fr.Add(s2, sum)
+					}
+					l2, e2 := crypto.AggregateBLSPrivateKeys(list)
+					if e2 != nil || s2.Sign() == 0 {
+						continue
+					}
+					run.Eval(1)
+					if wp := ref.EncodeG2(ref.E2.Mul(ref.G2Gen, s2), cv); !bytes.Equal(l2.PublicKey().Encode(), wp) {
+						run.Violate("C12:public-key:bls:aggregated-nested", fmt.Sprintf("two-level aggregation with every public key computed beforehand (list shape %d): public key %x, reference %x", li, l2.PublicKey().Encode(), wp), map[string]any{"composition": comp, "n": n, "all_warm": true})
+						break
+					}
+				}
+			}
+		}
 		level, levelSum := agg, new(big.Int).Set(sum)
 		for depth := 1; depth <= 3; depth++ {
 			if (mask>>uint(depth))&1 == 1 || comp != "random" {
